@@ -337,7 +337,39 @@ def tlc_trace(module, cases_events, tag, nproc=8):
 
 
 # ----------------------------------------------------------------------------- driver
+def _limit_child():
+    """the code under test may allocate without bound (that is a finding, reported as an abort of
+    the case); it must not take the machine down with it"""
+    import resource
+    lim = int(os.environ.get("VERIF_DRIVER_MEM_GB", "6")) << 30
+    resource.setrlimit(resource.RLIMIT_AS, (lim, lim))
+
+
+RETRIED = {"timeout": 0, "abort": 0, "recovered": 0}
+
+
 def run_driver(cases, case_timeout=20.0, tag="drv"):
+    """run_driver_once, then every case that hung or aborted is executed again, alone, with a
+    four times longer limit: only an outcome that repeats is attributed to the code under test
+    (a loaded machine must not turn into a verdict)."""
+    results = run_driver_once(cases, case_timeout, tag)
+    by_id = {c["id"]: c for c in cases}
+    confirmed = 0
+    for cid, r in list(results.items()):
+        if isinstance(r, dict) and ("timeout" in r or "abort" in r):
+            RETRIED["timeout" if "timeout" in r else "abort"] += 1
+            if confirmed >= 4:      # the machine is evidently not the cause; do not spend minutes per case
+                continue
+            again = run_driver_once([by_id[cid]], case_timeout * 4, tag).get(cid)
+            if again is not None and "timeout" not in again and "abort" not in again:
+                RETRIED["recovered"] += 1
+                results[cid] = again
+            else:
+                confirmed += 1
+    return results
+
+
+def run_driver_once(cases, case_timeout=20.0, tag="drv"):
     """Execute cases (dicts with id, cmd, ...) on tx3-driver. Returns {id: result}.
 
     An abort (stack overflow, process::abort) or a hang is attributed to the case that was
@@ -347,7 +379,7 @@ def run_driver(cases, case_timeout=20.0, tag="drv"):
     pending = list(cases)
     while pending:
         p = subprocess.Popen([DRIVER], stdin=subprocess.PIPE, stdout=subprocess.PIPE,
-                             stderr=subprocess.DEVNULL, text=True, bufsize=1 << 16)
+                             stderr=subprocess.DEVNULL, text=True, bufsize=1 << 16, preexec_fn=_limit_child)
 
         def feed(proc=p, items=list(pending)):
             try:
@@ -495,7 +527,8 @@ class Report:
                 "samples": self.samples[:6] or ["(none)"],
                 "exhaustive": self.exhaustive,
                 "known_findings": [l for l in kf_lines],
-                "notes": self.notes,
+                "notes": self.notes + ([f"driver cases that hung/aborted and were re-executed alone: {RETRIED}"]
+                                       if RETRIED["timeout"] + RETRIED["abort"] else []),
             }, **self.extra),
             "assumptions": self.assumptions,
             "wall_s": round(wall, 2),
